@@ -2,8 +2,9 @@
    geoh5py/ui_json/constants.py::ui_validations with ignore_list = ("value",)), called by InputFile.numify on every
    nested dictionary of a ui.json  (properties C14, C15).  Definitions only.
 
-   The table below is compared with the source on every run (tools/props/c14.py regenerate: the literal is re-read with
-   `ast` and must print to exactly this term, see coq/generated/Table_UiValidations.v). *)
+   The rule table itself is not written here: tools/pylite/units.py::extract_tables re-reads the literal
+   constants.py::ui_validations with `ast` on every run and emits coq/generated/Table_UiValidations.v
+   (fail-closed on anything but strings / bools / lists / type names). *)
 From Coq Require Import String.
 From GV Require Import Prelude.Base Model.PyVal Model.Enforcers.
 Local Open Scope string_scope.
